@@ -423,6 +423,9 @@ def same_clsid_pairs():
             for b in ns:
                 if a != b:
                     out.append((a, b))
+    # every event twice in a row (a one-shot resource consumed by the first call shows here)
+    for n in sorted(ev):
+        out.append((n, n))
     return out
 
 
@@ -705,7 +708,7 @@ def run_tier(tier, t0):
             f"(b) {len(names)} events (parse and keyword build of every routed definition, SETPOLL and raw-bitfield parses of every variant route and special case, config helpers, all helpers, 20 failing calls, stream reads under 3 policies x 3 modes): "
             f"every event from the import state with a deep digest of all pyubx2 module data (states = distinct digests, must be 1), all histories of length 2 "
             + (f"over a {len(sub)}-event sub-alphabet as second event" if q else f"and length 3 over a {len(sub)}-event sub-alphabet")
-            + f" with probe-set comparison, all {len(sp)} adjacent ordered pairs of events that share a class/ID" + ("" if q else " and all ordered pairs of parse events") + ", fd 1/2 captured around every event; (c) all {len(pairs)} unordered pairs of {len(ops)} colliding operations as real threads under the cooperative scheduler, "
+            + f" with probe-set comparison, all {len(sp)} adjacent ordered pairs of events that share a class/ID (and every event applied twice in a row)" + ("" if q else " and all ordered pairs of parse events") + ", fd 1/2 captured around every event; (c) all {len(pairs)} unordered pairs of {len(ops)} colliding operations as real threads under the cooperative scheduler, "
             + ("every schedule with <= 1 preemption" if q else "every schedule with <= 1 preemption, <= 2 preemptions (capped at 8,000 executions per shard = 64,000 per pair, caps listed), 20 triples at bound 1")
             + ". transitions = events applied + scheduling points executed; distinct_nontrivial = outcome classes"
         ),
